@@ -286,6 +286,12 @@ func (w *world) corruptPre(rng *rand.Rand, corr string, p *updParams, base uint6
 		p.signer = w.attacker
 	case "forged-consistent":
 		p.signer, p.next, p.curInState = w.attacker, w.attacker, w.attacker
+	case "fork-version-of-attested-slot":
+		// signed under the domain of the fork the ATTESTED header lies in (only differs when the update straddles a fork)
+		if w.fvAt(p.att) == w.fvAt(p.sig) {
+			return false
+		}
+		p.forkVersion = w.fvAt(p.att)
 	case "fork-version-prev":
 		p.forkVersion[0]--
 	case "fork-version-random":
@@ -455,7 +461,7 @@ func (w *world) makeCase(rng *rand.Rand, d caseDesc) *builtCase {
 		signer:      w.committeeAt(s.base, nC, period(s.sig)),
 		next:        w.committeeAt(s.base, nC, period(s.att)+1),
 		curInState:  w.committeeAt(s.base, nC, period(s.att)),
-		forkVersion: w.forkVersion, genesisRoot: w.genesisRoot, domainType: domainSyncCommittee,
+		forkVersion: w.fvAt(s.sig), genesisRoot: w.genesisRoot, domainType: domainSyncCommittee,
 	}
 	// An update whose signature period does not fit the store must be rejected
 	// even when it is signed by the very committee the store holds (otherwise the
